@@ -1,5 +1,5 @@
 """Registry: which stages decide which property (see DESIGN.md section 5)."""
-from checklib import PROPS, make_prop, ES, GS, tlc_only_stage, refstore_stage, session_stage, long_session_stage, short_strings_stage
+from checklib import PROPS, make_prop, ES, GS, tlc_only_stage, refstore_stage, session_stage, long_session_stage, short_strings_stage, stress_stage
 from tracestages import TE, TL, api_stage, api_cases_stage
 
 COMMON_ASSUME = [
@@ -38,22 +38,22 @@ def tlaps_stage(ev, tier, seed):
 
 NT = "non-trivial = the specification's nodelist is non-empty; distinct = distinct REPLAY lines"
 PROPS["C01"] = make_prop("C01", [ES("C01", "C01", "nodes"), ES("C01", "C11", "nodes"), ES("C01", "C05", "nodes"), ES("C01", "C01D", "nodes"), ES("C01", "C03", "nodes"), GS("C01", "C13", "nodes"), TE("C01", {"nodes", "outcome", "seg"}), TL("C01", {"nodes", "outcome"})],
-    "every (document, query) pair of universe C01 (strided by seed) driven through the evaluation machine; " + NT, COMMON_ASSUME)
+    "stages: every (document, query) pair (strided by the seed) of the universes C01 (structural selectors, 2-segment queries over depth-2 documents), C11 (all slices/indices), C05 (filters), C01D (documents nested 133/300 deep), C03 (hostile member names) driven through the evaluation machine and replayed; the grammar machine's shorthand/bracket spellings on probe documents; 1 500/20 000 seeded random (document, query string) evaluations and 26 evaluations on large documents recorded from the implementation and validated by TLC (Trace_Eval, incl. per-segment hook events); " + NT, COMMON_ASSUME)
 PROPS["C02"] = make_prop("C02", [ES("C02", "C01", "order"), ES("C02", "C11", "order"), ES("C02", "C15", "order"), ES("C02", "C01D", "order"), TE("C02", {"order"}), TL("C02", {"order"})],
-    "as C01 but the result SEQUENCE is compared; " + NT, COMMON_ASSUME)
-PROPS["C03"] = make_prop("C03", [ES("C03", "C03", "paths"), ES("C03", "C11", "paths", mode="paths"), ES("C03", "C01", "paths", mode="paths"), TE("C03", {"paths"}), TL("C03", {"paths"})],
+    "as C01 but the result SEQUENCE is compared: universes C01, C11, C15 (insertion-ordered documents through J), C01D; random and large recorded evaluations validated by TLC; " + NT, COMMON_ASSUME)
+PROPS["C03"] = make_prop("C03", [ES("C03", "C03", "paths"), ES("C03", "C11", "paths", mode="paths"), ES("C03", "C01", "paths", mode="paths"), TE("C03", {"paths"}), TL("C03", {"paths"}), TL("C03", {"paths", "nodes"}, "huge")],
     "member names over a hostile alphabet reached through every route kind; each result's path compared with the spec's NormalizedPath of the node found by address, equal-paths<=>same-node, and re-query of the reported path; " + NT, COMMON_ASSUME)
 PROPS["C04"] = make_prop("C04", [ES("C04", "C04", "nodes"), ES("C04", "C15", "nodes"), TE("C04", {"cmp"})],
     "all pairs of operand values x 6 operators x operand forms embedded as $[?lhs op rhs]; the child is selected iff the spec's Compare is true; " + NT, COMMON_ASSUME)
-PROPS["C05"] = make_prop("C05", [ES("C05", "C05", "order")],
+PROPS["C05"] = make_prop("C05", [ES("C05", "C05", "order"), lambda ev, tier, seed: stress_stage(ev, "C05", tier, seed)],
     "logical expressions of depth <= 3 over test/comparison/nested-filter atoms applied to arrays and objects of children covering presence/absence and falsy values; selected children compared in order; " + NT, COMMON_ASSUME)
 PROPS["C10"] = make_prop("C10", [ES("C10", "C10", "nodes,j"), TE("C10", {"fn"})],
     "regex ASTs of depth <= 2 rendered to patterns x subject strings (match and search), and length/count/value over every JSON type and NOTHING; " + NT,
     COMMON_ASSUME + ["patterns containing ^ or $ are outside the universe (RFC 9485 reads them as literals, the implementation's dialect as anchors)"])
-PROPS["C11"] = make_prop("C11", [tlaps_stage, slice_loop_stage, ES("C11", "C11", "order"), TE("C11", {"slice"})],
+PROPS["C11"] = make_prop("C11", [tlaps_stage, slice_loop_stage, ES("C11", "C11", "order"), TE("C11", {"slice"}), TL("C11", {"nodes", "order", "outcome"})],
     "all (start,end,step) over a window around the array length plus the +-BIG abstraction of +-(2^53-1) x all lengths; all indices; also under a descendant segment; plus the loop machine SliceLoop.tla on the spec side; " + NT,
     COMMON_ASSUME + ["BIG abstraction: an integer beyond the window behaves like its saturated representative (DESIGN 3.1)"])
-PROPS["C12"] = make_prop("C12", [lambda ev, tier, seed: session_stage(ev, "C12", tier, seed), lambda ev, tier, seed: long_session_stage(ev, "C12", tier, seed), ES("C12", "C01", "entry,prog"), ES("C12", "C05", "entry,prog"), ES("C12", "C04", "entry,prog"), ES("C12", "C10", "entry,prog"), ES("C12", "C03", "entry")],
+PROPS["C12"] = make_prop("C12", [lambda ev, tier, seed: session_stage(ev, "C12", tier, seed), lambda ev, tier, seed: long_session_stage(ev, "C12", tier, seed), lambda ev, tier, seed: stress_stage(ev, "C12", tier, seed), ES("C12", "C01", "entry,prog,recover"), ES("C12", "C05", "entry,prog,recover"), ES("C12", "C04", "entry,prog"), ES("C12", "C10", "entry,prog"), ES("C12", "C03", "entry")],
     "the three entry points, the prepared query and a repetition compared position by position on every behaviour; document snapshot before/after; " + NT, COMMON_ASSUME)
 PROPS["C14"] = make_prop("C14", [ES("C14", "C14", "nodes")],
     "five extension functions over all (x, L) pairs of element values, arrays of them, non-arrays and missing members; also negated and with $-rooted argument; " + NT,
@@ -63,13 +63,13 @@ PROPS["C15"] = make_prop("C15", [ES("C15", "C15", "nodes,order,paths", mode="pat
     COMMON_ASSUME + ["J (harness/src/j.rs) is a faithful implementation of the trait as documented"])
 
 GR = "distinct = distinct sentences; non-trivial = the recogniser gives a verdict (valid/invalid) rather than unscoped"
-PROPS["C06"] = make_prop("C06", [GS("C06", "C06", "accept"), GS("C06", "C07", "accept"), TE("C06", {"outcome"})],
+PROPS["C06"] = make_prop("C06", [GS("C06", "C06", "accept"), GS("C06", "C07", "accept"), TE("C06", {"outcome"}), TL("C06", {"outcome"}, "text")],
     "every spelling (blank space at every S, both quote styles, every escape form, shorthand/bracket notation, redundant parentheses, number spellings) within a variation budget of the abstract queries of GrammarUniverse, derived by the grammar machine and judged valid by the recogniser, must be accepted by parse_json_path and by JsonPath::query; " + GR,
     COMMON_ASSUME + ["RFC 9535 ABNF transcribed twice (generator Grammar.tla, recogniser JPParse.tla) and cross-checked by TLC"])
 PROPS["C07"] = make_prop("C07", [GS("C07", "C07", "reject,accept"), lambda ev, tier, seed: short_strings_stage(ev, "C07", tier, seed), lambda ev, tier, seed: api_cases_stage(ev, "C07", tier, seed), TE("C07", {"outcome"})],
     "every single-character edit (delete, insert, replace over a 17..27 symbol alphabet, transpose) of the canonical spellings, plus ill-typed / out-of-range abstract queries; the recogniser decides validity; invalid ones must be rejected by parse_json_path and JsonPath::query, valid ones accepted; " + GR,
     COMMON_ASSUME + ["strings the properties do not speak about (unknown function names, blanks inside singular-query brackets, huge number literals) are labelled unscoped and skipped"])
-PROPS["C13"] = make_prop("C13", [GS("C13", "C13", "order,accept"), TE("C13", {"ast"})],
+PROPS["C13"] = make_prop("C13", [GS("C13", "C13", "order,accept"), TE("C13", {"ast"}), TL("C13", {"outcome", "nodes", "order", "ast"}, "text")],
     "all spellings within the variation budget of each abstract query, evaluated on three probe documents: each must return the specification's nodelist for the ABSTRACT query in order (so all spellings agree); spec-side invariant SpellingSame; " + GR,
     COMMON_ASSUME)
 
@@ -77,6 +77,6 @@ PROPS["C09"] = make_prop("C09", [lambda ev, tier, seed: refstore_stage(ev, "C09"
     "histories of up to 2 (thorough 3) reads/writes through the Normalized Paths of EVERY location of the initial document and of locations that do not exist (missing name, index = len, name step on an array, index step on an object); member names include / ~ ~1 0 1 '' and (thorough) ' \\ \" LF; after every step the node address / the whole document is compared with the specification; non-trivial = the history touches an existing location",
     COMMON_ASSUME)
 
-PROPS["C08"] = make_prop("C08", [lambda ev, tier, seed: api_stage(ev, "C08", tier, seed), ES("C08", "C03", "prog"), ES("C08", "C01", "prog"), ES("C08", "C10", "prog"), ES("C08", "C05", "prog")],
+PROPS["C08"] = make_prop("C08", [lambda ev, tier, seed: api_stage(ev, "C08", tier, seed), ES("C08", "C03", "prog"), ES("C08", "C01", "prog,recover"), ES("C08", "C10", "prog"), ES("C08", "C05", "prog")],
     "every call of parse_json_path / query / query_with_path / query_only_path / js_path_process on (a) the Api machine's extreme inputs (9 kinds of nesting x depths 8..512, thorough 4096; integers and literals at +-(2^53-1), 2^53, the i64 limits, huge exponents; truncated strings), (b) a sample of the grammar machine's valid / near-miss / ill-typed sentences, (c) seeded random and mutated strings, executed in isolated worker processes; the recorded call/return trace must be a behaviour of Api.tla (no panic, no crash, no timeout, Err iff the string is invalid); distinct = cases",
     COMMON_ASSUME + ["a hang is observed as 60 s without progress of the worker", "debug build with overflow checks on"])
